@@ -788,6 +788,7 @@ def parts(ctx):
           depth=2, shards=4, mid_ops=_names_in("select", "store"), top_ops=_names_in("store", "arrite"),
           max_new=1)
     # ---- uninterpreted functions
+    A(name="nary5mix-d1", profile=lambda e: P.nary5mix_profile(e, natoms=5 if q else None), depth=1, shards=32, dom={INT: (0, 1)})
     A(name="uf-d2", profile=P.uf_profile, depth=2, shards=16, dom={INT: (0, 1, 2)})
     if not q:
         A(name="uf-d3", profile=P.uf_profile, depth=3, shards=96, dom={INT: (0, 1)},
